@@ -48,9 +48,9 @@ def plan(tier):
         I.append(inst(f"TangentVector.origin_to[n=2,sign={s}]", 'harness.c02', 'from_tangent', dict(n=2), opts=dict(fix={"_k1_e0": s}), weight=40, timeout_s=1200))
     if not q:
         # attempted under a wall-clock cap; inconclusive (reported) if it does not finish
-        I.append(inst("TangentVector.isometry_to[n=2]", 'harness.c02', 'from_tangent', dict(n=2, which='isometry_to'), opts=dict(fix={"_k1_e0": 1, "_k2_e0": 1}), weight=600, timeout_s=3000))
+        I.append(inst("TangentVector.isometry_to[n=2]", 'harness.c02', 'from_tangent', dict(n=2, which='isometry_to'), opts=dict(fix={"_k1_e0": 1, "_k2_e0": 1}), weight=600, timeout_s=1500))
         for k, fx in enumerate(_cases(3)[:2]):
-            I.append(inst(f"origin_to[n=3,kernel-case={k}]", 'harness.c02', 'from_point', dict(n=3), opts=dict(fix=fx), weight=600, timeout_s=3000))
+            I.append(inst(f"origin_to[n=3,kernel-case={k}]", 'harness.c02', 'from_point', dict(n=3), opts=dict(fix=fx), weight=600, timeout_s=1500))
     return dict(
         instances=I,
         explanation=("bounded symbolic verification: each isometry constructor (standard_rotation, Isometry.elliptic, standard_loxodromic, sl2_iso / "
@@ -61,7 +61,7 @@ def plan(tier):
                      "cases spread over instances).  Closure under composition / inverse: one inductive step on arbitrary matrices"),
         bounds=dict(polynomial_constructors="n<=3 (quick) / n<=4 (thorough); distances preserved checked for n<=2",
                     find_isometry_family="n<=2: origin_to, timelike_to, spacelike_to, reflection_across, TangentVector.origin_to (all stub cases in thorough, a spread of 4 in quick)",
-                    tangent_transport="isometry_to and H^3 origin_to attempted in the thorough tier under a 50 min cap",
+                    tangent_transport="isometry_to and H^3 origin_to attempted in the thorough tier under a 25 min cap",
                     closure="n=2 (quick), n<=3 (thorough): all words by induction"),
         outside=["Coxeter hyperbolic_rep (see C08)", "find_isometry-based constructors for n>=3",
                  "TangentVector / Hyperplane constructions in H^1 (degenerate: see DESIGN.md findings)", "floating-point rounding"],
